@@ -191,7 +191,28 @@ def make_client(env, kind, cfg):
             if k in cfg:
                 kw[k] = cfg[k]
         kw["servers"] = list(env.addrs)
+        if cfg.get("add_at_runtime") is not None:
+            # the servers are put into rotation after construction, through the public add_server, in one of its spellings
+            kw["servers"] = []
+            c = env.client(kind, **kw)
+            for j, a in enumerate(env.addrs):
+                add_server_spelled(c, a, cfg["add_at_runtime"] + j)
+            return c
     return env.client(kind, **kw)
+
+
+def add_server_spelled(c, spec, sp):
+    """(host, port) / (host, 'port') / 'host:port' / legacy add_server(host, port) / add_server(host, 'port')"""
+    if not isinstance(spec, tuple) or sp % 5 == 0:
+        c.add_server(spec)
+    elif sp % 5 == 1:
+        c.add_server((spec[0], str(spec[1])))
+    elif sp % 5 == 2:
+        c.add_server("%s:%d" % spec)
+    elif sp % 5 == 3:
+        c.add_server(spec[0], spec[1])
+    else:
+        c.add_server(spec[0], str(spec[1]))
 
 
 def interpret(case, observer=None):
